@@ -107,7 +107,13 @@ def _replay(task):
     kind, n, atoms = c["kind"], c["n"], list(c["atoms"])
     path = _path(ext, n, 0, shape)
     topkw = {} if ext in TOPEXT else {"top": trajgen.topology()}
-    akw = {"atom_indices": np.array(atoms)} if atoms else {}
+    if shape == 2 and atoms:
+        # 50-atom files: the subset is spread over large indices and handed over as a narrow integer array (3*index overflows int8 /
+        # uint8 arithmetic): the result may not depend on the dtype the caller happens to use
+        atoms = [4 * i + 5 for i in atoms]
+        akw = {"atom_indices": np.array(atoms, dtype=[np.int8, np.uint8, np.int16][(len(atoms) + c["n"]) % 3])}
+    else:
+        akw = {"atom_indices": np.array(atoms)} if atoms else {}
     full = _full_load(path, ext)
     obs = dict(status="ok", chunks=[])
     fbad = []
@@ -180,7 +186,7 @@ def run(ctx):
         _prepare(ctx.scratch, maxn)
     except Exception as e:
         ctx.machinery_failure("cannot prepare test files: %r" % (e,))
-    tasks = [(ext, c, shape) for shape in range(len(trajgen.SHAPES)) for ext in FORMATS for c in configs]
+    tasks = [(ext, c, shape) for shape in range(len(trajgen.SHAPES)) for ext in FORMATS for c in configs if shape < 2 or c["atoms"]]
     if ctx.replay:
         rp = json.load(open(ctx.replay))
         tasks = [tuple(rp["first"]["detail"]["task"])]
